@@ -1,7 +1,8 @@
 (* line protocol (one request per line, one answer line):
-     run <maxbuf> <handlers> <default> <awaiting> <env> <hexstream>
+     run <maxbuf> <handlers> <default> <neverreply> <awaiting> <env> <hexstream>
        handlers  comma separated message types with a MessageHandler, or -
        default   0|1
+       neverreply comma separated message types that are never looked up in c.awaiting, or -
        awaiting  comma separated ids in c.awaiting at the start, or -
        env       ';'-separated entries  <ids registered before this lookup or ->/<r|p>/<k>
                  (entry j belongs to the j-th header read; beyond the list: -/r/0), or -
@@ -64,9 +65,11 @@ let () =
     while true do
       let line = input_line stdin in
       (match String.split_on_char ' ' (String.trim line) with
-       | ["run"; maxbuf; hs; df; aw; env; hex] ->
+       | ["run"; maxbuf; hs; df; nr; aw; env; hex] ->
          let hl = ints hs in
-         let cfg = { has_handler = (fun t -> List.mem (int_of_n t) hl); has_default = (df = "1") } in
+         let nrl = ints nr in
+         let cfg = { has_handler = (fun t -> List.mem (int_of_n t) hl); has_default = (df = "1");
+                     never_reply = (fun t -> List.mem (int_of_n t) nrl) } in
          let entries = if env = "-" then [||] else
              Array.of_list (List.map (fun e ->
                  match String.split_on_char '/' e with
